@@ -407,8 +407,9 @@ Hypothesis Fok : facts_ok F = true.
 Lemma facts_ok_inv :
   f_eq_ign_left F = true /\ f_eq_ign_right F = true /\ f_eq_isinstance_guard F = true /\ f_ne_default F = true /\
   f_hash_ign F = true /\ f_hash_deep F = true /\ f_hash_dict_unordered F = true /\
-  f_skip_before_append F = true /\ f_grp_accepts F = true /\ f_grp_forwards F = true /\ f_ctx_finally F = true /\
-  f_hashable_defined F = true /\ f_eq_descriptors F = true.
+  f_skip_before_append F = true /\ f_grp_accepts F = true /\ f_grp_forwards F = true /\ f_ctx_exception F = true /\
+  f_hashable_defined F = true /\ f_eq_descriptors F = true /\
+  f_ctx_base_exception F = true /\ f_ctx_generator_exit F = true /\ f_ctx_control F = true.
 Proof.
   pose proof Fok as K. unfold facts_ok in K. repeat (apply andb_prop in K; destruct K as [K ?]).
   repeat split; assumption.
@@ -448,7 +449,7 @@ Theorem rec_eq_spec ign n1 f1 v1 n2 f2 v2 :
   (n1, f1) = (n2, f2) /\
   Forall2 (fun a b => py_eq F H ign ign a b = true) (kept F ign (slots F f1) v1) (kept F ign (slots F f2) v2).
 Proof.
-  destruct facts_ok_inv as (_ & _ & _ & _ & _ & _ & _ & _ & _ & _ & _ & _ & E13).
+  destruct facts_ok_inv as (_ & _ & _ & _ & _ & _ & _ & _ & _ & _ & _ & _ & E13 & _).
   rewrite rec_eq_unfold by reflexivity.
   assert (Hs : Some (py_eq F H ign ign (PRec n1 f1 v1) (PRec n2 f2 v2)) = Some true <->
                py_eq F H ign ign (PRec n1 f1 v1) (PRec n2 f2 v2) = true).
@@ -533,8 +534,9 @@ End Hash.
 Theorem with_ignore_restores xs (b : body) g :
   fst (with_ignore F xs b g) = g /\ snd (with_ignore F xs b g) = snd (b xs).
 Proof.
-  destruct facts_ok_inv as (_ & _ & _ & _ & _ & _ & _ & _ & _ & _ & E11 & _).
-  unfold with_ignore. destruct (b xs) as [g' raised]. rewrite E11. destruct raised; split; reflexivity.
+  destruct facts_ok_inv as (_ & _ & _ & _ & _ & _ & _ & _ & _ & _ & E11 & _ & _ & E14 & E15 & E16).
+  unfold with_ignore. destruct (b xs) as [g' k]. cbn [fst snd]. split; [|reflexivity].
+  destruct k; cbn [restores]; rewrite ?E11, ?E14, ?E15, ?E16; reflexivity.
 Qed.
 
 End WithFacts.
